@@ -248,6 +248,9 @@ struct Lossy {
         //  expected loss is low - at 1 % a steady 3 kHz tone is quantised to an all-zero excitation and the copy is, by design, near-silent;
         //  from 13 % on the coarsening is at its minimum of 2 steps)
         if (log[k + 1].loss_perc < 13) nf = -1;
+        // (hybrid packets: the redundant copy carries the band below 8 kHz only - a sweep or tone above it is, by design, absent from it;
+        //  judged for speech-like families, whose energy sits in the lower band)
+        if (toc_mode(rc.pkt[0]) == 1 && !(rc.fam == SRC_VOICED || rc.fam == SRC_ONSETS || rc.fam == SRC_STEADYVOICED)) nf = -1;
         if (nf > 0 && (log[k + 1].pkt[0] & 4) == (rc.pkt[0] & 4) && (k < 1 || (log[k - 1].pkt[0] & 4) == (rc.pkt[0] & 4)) && (rc.pkt[0] & 3) == 0 && (rc.pkt[0] >> 3) == (log[k + 1].pkt[0] >> 3) && k >= 1 && (log[k - 1].pkt[0] >> 3) == (rc.pkt[0] >> 3)) {   // same mode, bandwidth and duration before, at and after the loss
           size_t per = pr.size() / (size_t)nf;
           for (int f = 0; f < nf; f++) if ((mid >> f) & 1) {
